@@ -976,6 +976,20 @@ func plDropScenarios(thorough bool) ([]*plScenario, map[string]map[string]bool) 
 		out = append(out, kafkaIdentity(&plScenario{Name: "drop:restart-collection", SrcN: 2, TgtN: 2, Colls: []*plColl{c}, Drivers: []plDriver{{Kind: "start", Coll: 0}}}))
 		synth["kafka:drop:restart-collection"] = map[string]bool{"coll/default/c1": true}
 	}
+	// every shard has read the drop, but the event queue is full: the task is paused before the queue takes the request
+	// (the pause closes the barrier) and resumed on the same manager while the catalog still lists the collection as
+	// dropped and the downstream still has it - the drop is still requested, once
+	{
+		sc := plShardedScenario("drop:collection/pause-resume/queue-full", 2, func(i int) []plPack { return []plPack{pkIns(int64(1000 + i)), pkDropColl(1050)} })
+		sc.Colls[0].SeekMs = 990
+		sc.Drivers = append(sc.Drivers, plDriver{Kind: "resume", Coll: 0, AfterBarrier: true, ResumeSeekMs: 1060, ResumeDropped: true})
+		sc.SlowEvents, sc.SlowDropOnTarget = true, true
+		sc.Strict = true
+		one := 1
+		sc.Bound = &one
+		out = append(out, sc)
+		synth["drop:collection/pause-resume/queue-full"] = map[string]bool{"coll/default/c1": true}
+	}
 	// the same collection is announced a second time (list + watch both report it): no second replication, no second drop
 	{
 		sc := plShardedScenario("drop:announced-twice", 2, func(i int) []plPack { return []plPack{pkIns(int64(1000 + i)), pkDropColl(1050)} })
